@@ -10,6 +10,7 @@
                          is confirmed in exact rational arithmetic on the harvested doubles before it is reported.
 """
 import sys, os, math, importlib.util, itertools
+sys.set_int_max_str_digits(0)
 sys.path.insert(0, os.path.dirname(__file__))
 from common import *
 
@@ -201,10 +202,18 @@ def project_float(K, pts, ndim, order):
     return Kp, N
 
 # ----------------------------------------------------------------------------------------------- generators
-def point_set(rng, kind, ndim, n):
+def point_set(rng, kind, ndim, n, m2=None):
     if kind == 'grid':
-        m = {1: 9, 2: rng.choice([3, 4, 5]), 3: 3, 4: 3, 5: 2}[ndim]
+        m = {1: 9, 2: m2 or rng.choice([3, 4, 5]), 3: 3, 4: 3, 5: 2}[ndim]
         return [tuple(F(c) for c in p) for p in itertools.product(range(m), repeat=ndim)]
+    if kind == 'cluster-fixed':      # deterministic: tight triplets (spacing 1/64) on the corners of a cube of side 3
+        pts = []
+        for c in itertools.product((0, 3), repeat=ndim):
+            c = [F(t) for t in c]
+            pts.append(tuple(c))
+            a = list(c); a[0] += F(1, 64); pts.append(tuple(a))
+            b = list(c); b[-1] -= F(1, 64) if ndim > 1 else F(1, 32); pts.append(tuple(b))
+        return pts[:24]
     if kind == 'clustered':
         cs = [tuple(F(rng.randint(-24, 24), 4) for _ in range(ndim)) for _ in range(max(2, n // 3))]
         pts = []
@@ -240,7 +249,7 @@ def gen_struct(rng, e, ndim, nvar, allow_paths=None):
     if ndim in (2, 3) and rng.random() < .7 and e['hasrange'] != 0:
         angles = [F(rng.choice([0, 15, 30, 45, 60, 90, 120, 135, 180, 270, 33, 77, 200, 345]) + rng.choice([0, 0, F(1, 2)])) for _ in range(ndim)]
         if ndim == 2: angles[1] = F(0)
-        if rng.random() < .35 and path not in (4, 5):
+        if rng.random() < .35 and path not in (4, 5, 8):
             rm = [dyadic_round(t) for t in rot_from_angles(ndim, angles)]
             rotspec = [1, [dy(t) for t in rm]]
         else: rotspec = [0, [dy(a) for a in angles]]
@@ -285,10 +294,13 @@ def run(ctx):
         # fall back on the pinned tree's table so that the search below can still look for a failing input
         text, ctx.tab = load_translator('C03_covtable').translate('/repo') if REPO != '/repo' else (None, None)
         if ctx.tab is None: return     # nothing can be generated: the violation recorded by translate() is the verdict
+    ctx.log('library built, table translated')
     proofs_ok = coq_properties(ctx)
+    ctx.log('theorems re-checked')
     runner = build_runner(ctx)
     exe = build_harness(ctx, 'C03')
     if exe is None: print('ERROR: harness does not build'); sys.exit(3)
+    ctx.log('runner and harness built')
     if runner is None:
         if proofs_ok: print('ERROR: model runner does not build'); sys.exit(3)
     entries = ctx.tab['entries']
@@ -309,7 +321,8 @@ def run(ctx):
         for code, decl, ref, fails in mo[0][1]:
             if fails: table_fail[code] = (decl, ref, fails)
             ctx.count('table:%d' % code, True)
-    acc_cases = [[2, d, o] for d in range(1, 6) for o in (-1, 0, 1, 2, 3)]
+    # (the Markov structure runs an FFT on a 512^ndim array when constructed: only built in R^1, R^2)
+    acc_cases = [[2, d, o, [e['code'] for e in entries if o == 3 and (e['code'] != 27 or d <= 2)]] for d in range(1, 6) for o in (-1, 0, 1, 2, 3)]
     cf = write_cases(ctx, 'accept', acc_cases)
     _, acc = run_impl(ctx, exe, cf)
     guard_vacuous = []      # (code, ndim) constructed although getMaxNDim < ndim
@@ -338,10 +351,11 @@ def run(ctx):
                      "_evaluateCov not defined): CovAniso('%s').eval returns the undefined value 1.234e30" % (e['name'], d, e['name']),
                      {'case': sx_str(c), 'structure': e['name'], 'how': 'CovFactory::getCovList(CovContext(1, SpaceRN(%d)), 3); CovAniso(ECov::%s, ctxt).eval(p1, p2)' % (d, e['key'])})
 
+    ctx.log('table and acceptance done')
     # ------------------------------------------------------------------ 2. closed forms: ACovFunc::evalCov vs the model
     hs = [F(0), F(1, 1 << 40), F(1, 1 << 20), F(1, 65536), F(1, 8), F(1, 4), F(3, 8), F(1, 2), F(5, 8), F(3, 4), F(7, 8),
           F(1) - F(1, 1 << 10), F(1) - F(1, 1 << 30), F(1), F(1) + F(1, 1 << 30), F(1) + F(1, 1 << 10), F(9, 8), F(5, 4), F(3, 2), F(7, 4),
-          F(2) - F(1, 1 << 20), F(2), F(2) + F(1, 1 << 20), F(5, 2), F(3), F(5), F(8), F(21, 2), F(33), F(120)]
+          F(2) - F(1, 1 << 20), F(2), F(2) + F(1, 1 << 20), F(5, 2), F(3), F(5), F(8), F(21, 2), F(33)]
     hs += [F(rng.randint(1, 4095), 1024) for _ in range(10 if quick else 60)]
     cases0 = []; meta0 = []
     for e in entries:
@@ -397,6 +411,7 @@ def run(ctx):
         ctx.dist('closed_' + short(e))
     ctx.sample({'closed_form_case': sx_str(cases0[1])[:200], 'impl': str(im0[1])[:200]})
 
+    ctx.log('closed forms done')
     # ------------------------------------------------------------------ 3. anisotropic structures, sums, modes, matrices
     ncase = 260 if quick else 2600
     cases1 = []; meta1 = []
@@ -438,12 +453,15 @@ def run(ctx):
             cases1.insert(0, c); meta1.insert(0, None)
     res1 = correspond_structs(ctx, exe, runner, cases1, meta1, by_code, viol)
 
+    ctx.log('structures done')
     # ------------------------------------------------------------------ 4. properties tested on the implementation alone
     property_tests(ctx, exe, entries, by_code, viol, quick)
 
+    ctx.log('property tests done')
     # ------------------------------------------------------------------ 5. search: numerical PSD exploration
     psd_exploration(ctx, exe, entries, by_code, table_fail, guard_vacuous, viol, quick)
 
+    ctx.log('PSD exploration done')
     # ------------------------------------------------------------------ 6. verdict on the table
     for code, (decl, ref, fails) in sorted(table_fail.items()):
         e = by_code[code]
@@ -738,22 +756,24 @@ def psd_exploration(ctx, exe, entries, by_code, table_fail, guard_vacuous, viol,
         dims = [(d, True) for d in range(1, dmax + 1)] + [(d, False) for d in sorted(guard_dims.get(code, set())) if d == dmax + 1]
         for ndim, accepted in dims:
             for param in params_for(e, rng, True):
-                kinds = ['grid', 'grid', 'clustered', 'random'] if ndim <= 3 else ['grid']
+                kinds = ['grid', 'cluster-fixed', 'clustered', 'random'] if ndim <= 3 else ['grid']
                 rlist = [F(5, 4), F(13, 8), F(5, 2), F(4)] if quick else [F(3, 4), F(5, 4), F(13, 8), F(2), F(5, 2), F(3), F(4), F(6)]
                 if ndim == 4: rlist = [F(3, 4)] if quick else [F(1, 2), F(3, 4), F(5, 4)]
                 for kind in kinds:
                     for rg in (rlist if kind == 'grid' else rlist[1:3]):
-                        pts = point_set(rng, kind, ndim, 18)
-                        if kind != 'grid': pts = [tuple(x / 4 for x in p) for p in pts]
+                        pts = point_set(rng, kind, ndim, 18, m2=4)
+                        if kind in ('clustered', 'random'): pts = [tuple(x / 4 for x in p) for p in pts]
                         if e['hasrange'] == -1: rg2 = rg * 8       # field large enough for the "covariance" form to be usable
                         else: rg2 = rg
                         # asymptotic structures: give the scale the same role as the range of the bounded ones
                         sc = e['scadef'][1] if e['scadef'][0] == 'const' else F(3)
-                        s = [code, dy(param), 1, [dy(rg2 * sc)] * ndim, [], [[dy(1)]]]
-                        cases.append([1, ndim, 1, [s], [], [], [Pt(p) for p in pts], []]); meta.append((e, ndim, param, rg2 * sc, kind, pts, accepted))
+                        rgd = dyadic_round(float(rg2 * sc), 16)
+                        s = [code, dy(param), 1, [dy(rgd)] * ndim, [], [[dy(1)]]]
+                        cases.append([1, ndim, 1, [s], [], [], [Pt(p) for p in pts], []]); meta.append((e, ndim, param, rgd, kind, pts, accepted))
     cf = write_cases(ctx, 'psd', cases)
     _, im = run_impl(ctx, exe, cf, timeout=3000)
     nneg = 0
+    guard_best = None
     for k, c in enumerate(cases):
         e, ndim, param, rg, kind, pts, accepted = meta[k]
         ii = im[k] if k < len(im) else None
@@ -788,7 +808,7 @@ def psd_exploration(ctx, exe, entries, by_code, table_fail, guard_vacuous, viol,
         if xx == 0 or q >= -F(1, 10 ** 10) * F(trace) / n * xx: continue
         nneg += 1
         ctx.psd_found.setdefault('_done', set()).add(key_done)
-        ctx.psd_found[e['code']] = True
+        if accepted: ctx.psd_found[e['code']] = True
         ray = float(q / xx)
         cond = '' if order < 0 else ' (x filters the polynomials of degree <= %d: an authorised increment)' % order
         rep = {'case': sx_str(c), 'structure': e['name'], 'ndim': ndim, 'param': str(param), 'range': str(rg), 'points': [[str(t) for t in p] for p in pts],
@@ -800,10 +820,13 @@ def psd_exploration(ctx, exe, entries, by_code, table_fail, guard_vacuous, viol,
                  "'%s' is offered in R^%d%s but its covariance matrix on %d %s points (range %s%s) is not positive semi-definite: x^T K x = %.6g for the recorded x%s, i.e. an eigenvalue <= %.4g (trace %g)"
                  % (e['name'], ndim, '' if e['maxdim'] is None else ' (getMaxNDim = %d)' % e['maxdim'], n, kind, float(rg), ', param %s' % float(param) if e['hasparam'] else '', float(q), cond, ray, trace), rep)
         else:
-            viol('ACovFunc:dimension-guard-vacuous',
+            pref = {18: 0, 17: 1, 2: 2, 4: 3}.get(e['code'], 9)
+            if guard_best is not None and guard_best[0] <= pref: continue
+            guard_best = (pref,
                  "the constructor of ACovFunc calls the virtual isConsistent() (hence the base getMaxNDim() = MAX_INT): no structure is ever refused. '%s' (getMaxNDim = %d) is created in R^%d "
                  "by CovAniso / Model::addCovFromParam without error and its covariance matrix on %d %s points is not positive semi-definite (x^T K x = %.6g, eigenvalue <= %.4g)"
                  % (e['name'], e['maxdim'], ndim, n, kind, float(q), ray), rep)
+    if guard_best is not None: viol('ACovFunc:dimension-guard-vacuous', guard_best[1], guard_best[2])
     ctx.cov['psd_negative_directions'] = nneg
     if guard_vacuous and not any(v[0] == 'ACovFunc:dimension-guard-vacuous' for v in ctx.violations) and not any(k == 'ACovFunc:dimension-guard-vacuous' for k, _ in ctx.known_hit):
         code, d = guard_vacuous[0]
